@@ -44,14 +44,14 @@ def _shape(rnd):
 
 def _stim(rnd):
     api = rnd.choice(['run', 'forever'])
-    blocks = [{'kind': rnd.choice(['plain', 'plain', 'pplain']), 'sync': rnd.random() < 0.8},
+    blocks = [{'kind': rnd.choice(['plain', 'plain', 'pplain', 'fdest']), 'sync': rnd.random() < 0.8},
               {'kind': rnd.choice(['slowstop', 'slowstop', 'oa', 'repeat']),
                                   'slowstop': rnd.choice([2, 4, 6]), 'tmo': 12, 'dur': 3, 'sd': True}]
     if rnd.random() < 0.6:
         blocks.append({'kind': 'ia', 'idur': rnd.choice([3, 5]), 'itmo': 8})
     if rnd.random() < 0.4:
         blocks.append({'kind': 'trig', 'ctrl': rnd.choice(['shutdown', 'abort']), 'ctor': rnd.random() < .5})
-    dests = [i for i, b in enumerate(blocks, 1) if b['kind'] in ('plain', 'pplain', 'slowstop')]
+    dests = [i for i, b in enumerate(blocks, 1) if b['kind'] in ('plain', 'pplain', 'slowstop', 'fdest')]
     ext = lambda t, y=0: {'t': t, 'yields': y, 'op': 'ext', 'dest': rnd.choice(dests), 'shape': _shape(rnd)}
     actions = [ext(0, 0), ext(0, rnd.randint(1, 3)), ext(rnd.randint(1, 4)), ext(6), ext(8)]
     tstop = rnd.choice([2, 7, 9])
